@@ -193,7 +193,7 @@ def VolumeMatrix(
     if transform_matrix:
         # matrix manipulation
         medium = np.matmul(matrixA, matrixA.T)
-        medium = np.linalg.inv(medium)
+        medium = np.linalg.pinv(medium)
         medium = np.matmul(matrixA.T, medium)
         matrixA_transformation = np.matmul(medium, matrixA)
         if outputfile:
